@@ -7,6 +7,7 @@ import PrefVerif.Driver.IO
 import PrefVerif.Driver.Domains
 import PrefVerif.Driver.C05
 import PrefVerif.Driver.C19
+import PrefVerif.Driver.ILP
 open Lean PrefVerif.Driver
 
 def handlers : List (String × Handler) := [
@@ -30,7 +31,8 @@ def handlers : List (String × Handler) := [
   ("dom.nearly", Domains.nearly),
   ("c05.profile", C05.profile),
   ("c05.matrix", C05.matrix),
-  ("c19.check", C19.check)
+  ("c19.check", C19.check),
+  ("ilp.model", ILPD.model)
 ]
 
 def dispatch (j : Json) : Json :=
